@@ -42,6 +42,8 @@ def specs(draw, tier):
         ntasks = spec["nframes"]
     else:
         ntasks = 8
+    if draw(st.integers(0, 3)) == 1:  # the box far away from the origin (coordinates much larger than the droplets)
+        spec["far"] = float(draw(st.sampled_from([-1.0, 1.0])) * 10.0 ** draw(st.integers(4, 7)))
     spec["delay_order"] = draw(st.permutations(list(range(ntasks))))
     spec["delay_step"] = draw(st.sampled_from([0.02, 0.05, 0.08]))
     return spec
@@ -50,7 +52,8 @@ def specs(draw, tier):
 def make_grid(spec):
     from pde import CartesianGrid
 
-    return CartesianGrid([(0.0, float(spec["n"]))] * spec["dim"], [spec["n"]] * spec["dim"], periodic=spec["periodic"])
+    o = float(spec.get("far", 0.0)) * spec["n"]
+    return CartesianGrid([(o, o + float(spec["n"]))] * spec["dim"], [spec["n"]] * spec["dim"], periodic=spec["periodic"])
 
 
 def make_field(spec, grid, k=0):
@@ -73,7 +76,8 @@ def make_field(spec, grid, k=0):
         p = rng.uniform(0, n, dim)
         if all(np.linalg.norm((p - q + n / 2) % n - n / 2) > r + rq + 3 for q, rq in drops):
             drops.append((p, r))
-    em = Emulsion([DiffuseDroplet(p, r, 1.0) for p, r in drops])
+    o = float(spec.get("far", 0.0)) * n
+    em = Emulsion([DiffuseDroplet(p + o, r, 1.0) for p, r in drops])
     f = em.get_phasefield(grid)
     if spec["seed"] % 3 == 0:  # droplets of different brightness (local contrast differs from candidate to candidate)
         f.data[...] = 0.0
@@ -136,6 +140,8 @@ class C15(Property):
         nproc = spec["num_processes"]
         order = list(spec["delay_order"])
         ctx.cls(spec["kind"], f"procs:{nproc}", f"field:{spec['field']}", f"dim{spec['dim']}")
+        if spec.get("far"):
+            ctx.cls("far-from-origin")
         H._orig_refine = ia.refine_droplet if ia.refine_droplet is not H.delayed_refine else H._orig_refine
         H._orig_locate = ia.locate_droplets if ia.locate_droplets is not H.delayed_locate else H._orig_locate
         orig_refine, orig_locate = H._orig_refine, H._orig_locate
@@ -231,6 +237,19 @@ class C15(Property):
             return [float(t) for t in tc.times], [em_records(e) for e in tc.emulsions]
 
         ctx.require(rec(base) == rec(again), "storage:serial-not-repeatable", "two serial runs differ")
+        # a result belongs to the caller: continuing one of them (another frame appended) must neither change the other result nor what
+        # a further analysis of the same storage returns
+        snap_base = rec(base)
+        try:
+            from droplets import Emulsion
+
+            again.append(Emulsion([]), 1e3)
+            third = EmulsionTimeCourse.from_storage(st_, num_processes=1, **kw)
+            ok_third = rec(third) == snap_base and rec(base) == snap_base
+        except Exception as exc:  # noqa: BLE001
+            ok_third = False
+            ctx.cls(f"after-edit-raises:{type(exc).__name__}")
+        ctx.require(ok_third, "storage:result-aliases-storage-or-other-result", "after appending a frame to one result, the other result or a repeated analysis of the same storage differs")
         for k, f in enumerate(frames):
             H.LOCATE_DELAYS[H.frame_key(f)] = spec["delay_step"] * order[k % len(order)]
         ranks = [order[k % len(order)] for k in range(nf)]
